@@ -70,14 +70,19 @@ private:
 
 [[nodiscard]] constexpr auto operator+(month const& m, months const& ms) noexcept -> month
 {
-    auto const mo  = static_cast<long long>(static_cast<unsigned>(m)) + (ms.count() - 1);
+    auto const mo  = static_cast<long long>(static_cast<unsigned>(m)) - 1 + ms.count();
     auto const div = (mo >= 0 ? mo : mo - 11) / 12;
     return month{static_cast<unsigned int>(mo - div * 12 + 1)};
 }
 
 [[nodiscard]] constexpr auto operator+(months const& ms, month const& m) noexcept -> month { return m + ms; }
 
-[[nodiscard]] constexpr auto operator-(month const& m, months const& ms) noexcept -> month { return m + -ms; }
+[[nodiscard]] constexpr auto operator-(month const& m, months const& ms) noexcept -> month
+{
+    auto const mo  = static_cast<long long>(static_cast<unsigned>(m)) - 1 - ms.count();
+    auto const div = (mo >= 0 ? mo : mo - 11) / 12;
+    return month{static_cast<unsigned int>(mo - div * 12 + 1)};
+}
 
 [[nodiscard]] constexpr auto operator-(month const& m1, month const& m2) noexcept -> months
 {
